@@ -40,6 +40,23 @@ pub fn attribute(m: &Mol, mol: &Molecule, kind: &str) -> String {
                             notes.push(format!("inversion at centre type {} whose neighbours are collinear with it (a T-shaped or straight a-c-b arrangement): the plane a-c-b has no normal, the inversion angle is 0/0", types[c].name));
                         }
                     }
+                    // one bond perpendicular to the plane of the other two (three mutually perpendicular bonds): the energy depends on
+                    // sin(gamma) = sqrt(1 - cos^2 gamma) with cos gamma = +-1 there — a cusp, the gradient divides by zero
+                    let mut degenerate = degenerate;
+                    if !degenerate {
+                        let v = |a: usize| [x[a].x - x[c].x, x[a].y - x[c].y, x[a].z - x[c].z];
+                        for (a, b, k) in [(nb[0], nb[1], nb[2]), (nb[1], nb[2], nb[0]), (nb[2], nb[0], nb[1])] {
+                            let (p, q, r) = (v(a), v(b), v(k));
+                            let nrm = [p[1] * q[2] - p[2] * q[1], p[2] * q[0] - p[0] * q[2], p[0] * q[1] - p[1] * q[0]];
+                            let l = |u: [f64; 3]| (u[0] * u[0] + u[1] * u[1] + u[2] * u[2]).sqrt();
+                            let cosg = (nrm[0] * r[0] + nrm[1] * r[1] + nrm[2] * r[2]) / (l(nrm) * l(r));
+                            if 1.0 - cosg * cosg < 1e-12 {
+                                degenerate = true;
+                                notes.push(format!("inversion at centre type {} with one bond perpendicular to the plane of the other two (mutually perpendicular bonds): the energy has a cusp there and the gradient divides by sqrt(1 - cos^2 gamma) = 0", types[c].name));
+                                break;
+                            }
+                        }
+                    }
                     let e = make_term(&t).energy(x);
                     if !e.is_finite() && !degenerate { notes.push(format!("inversion term on {:?} evaluates to {} at this geometry", t.idxs, e)); }
                 }
